@@ -148,6 +148,39 @@ func c18(c *ctx) {
 			reqs:   func(string) []string { return []string{"!seen:handlePacket|handlePacket.ok"} }, minTarget: 1})
 	}
 
+	// ------------------------------------------------------------------ R8
+	r.Rule("R8", "PATH", "a finished message leaves nothing behind: on every successful return of handlePacket after a packet marked Eof was appended, the reassembly buffer has been emptied (re-sliced to length 0, set to nil or replaced by an empty slice) after the last append — whether or not the inbox accepted the message; bytes left behind would be glued in front of the next message on that topic", 1)
+	if eofF := c.field("p2p", "Packet", "Eof"); eofF != nil {
+		isEmpty := func(v ssa.Value) bool {
+			switch x := v.(type) {
+			case *ssa.Slice:
+				if k, ok := x.High.(*ssa.Const); ok && k.Value != nil && k.Int64() == 0 {
+					return true
+				}
+			case *ssa.Const:
+				return x.IsNil()
+			case *ssa.MakeSlice:
+				if k, ok := x.Len.(*ssa.Const); ok && k.Value != nil && k.Int64() == 0 {
+					return true
+				}
+			}
+			return false
+		}
+		bufEv := func(in ssa.Instruction) string {
+			if f, _, val := storeField(in); f != nil && f == asmF {
+				if isEmpty(val) {
+					return "empty"
+				}
+				return "fill"
+			}
+			return ""
+		}
+		c.mpt(mptSpec{rule: "R8", fn: handlePacket, events: evSet{}, extraEv: bufEv, atom: fieldLoadAtom("eof", eofF),
+			resets: map[string][]string{"fill": {"empty"}},
+			target: tgtOkReturn("ok-return"),
+			reqs:   func(string) []string { return []string{"@eof=F|seen:empty"} }, minTarget: 1})
+	}
+
 	// ------------------------------------------------------------------ R4
 	r.Rule("R4", "AGREE", "topics: every lib.Topic constant below INVALID has a receive arm on its stream's sendQueue in startSendService and NewStreams creates a stream for every id below INVALID (the heartbeat stream explicitly)", 8)
 	var topics []string
